@@ -122,3 +122,20 @@ func verifMsgFree(m *Message) {
 		}
 	}
 }
+
+// verifDupGate, when set, is called at the start of every Dup, before the
+// source is read: the harness uses it to run, at exactly that point, what
+// another holder of the message would do concurrently (release its
+// reference, allocate, write) - a forced interleaving.
+var verifDupGate atomic.Value // func(*Message)
+
+// VerifSetDupGate installs fn (nil: none) as the Dup gate.
+func VerifSetDupGate(fn func(*Message)) {
+	verifDupGate.Store(fn)
+}
+
+func verifMsgDup(m *Message) {
+	if fn, _ := verifDupGate.Load().(func(*Message)); fn != nil {
+		fn(m)
+	}
+}
